@@ -11,26 +11,16 @@ impl AnyError {
 //   is_descr(t, s, id)          -- "s is a description (or the name) of type id": ASSUMED contract of Transformer::resolve (RefCell<HashMap>
 //                                  cache + function pointers: outside both verifiers); resolve may return different texts for one id
 //                                  (full description first, the name later), hence a relation, not a function
-//   is_variant_descr(t, s, v)   -- what variant_type_description returns for variant v   (that function uses format!: opaque here)
-//   is_field_descr(t, s, f)     -- what field_type_description returns for field f        (format!: opaque here)
+//   (is_variant_descr is DEFINED in units/U-DESCTEXT/lemmas.rs: variant_type_description is extracted and verified)
+//   (is_field_descr is DEFINED in units/U-DESCTEXT/lemmas.rs: field_type_description is extracted and verified)
 pub struct DescTransformer { pub opaque: u8 }
 pub uninterp spec fn is_descr(t: DescTransformer, s: Seq<char>, id: u32) -> bool;
-pub uninterp spec fn is_variant_descr(t: DescTransformer, s: Seq<char>, v: Variant) -> bool;
-pub uninterp spec fn is_field_descr(t: DescTransformer, s: Seq<char>, f: Field) -> bool;
 impl DescTransformer {
     #[verifier::external_body]
     pub fn resolve(&self, type_id: u32) -> (r: AnyResult<String>)
         ensures r is Ok ==> is_descr(*self, r->Ok_0@, type_id)
     { unimplemented!() }
 }
-#[verifier::external_body]
-pub fn variant_type_description(variant: &Variant, transformer: &DescTransformer) -> (r: AnyResult<String>)
-    ensures r is Ok ==> is_variant_descr(*transformer, r->Ok_0@, *variant)
-{ unimplemented!() }
-#[verifier::external_body]
-pub fn field_type_description(field: &Field, transformer: &DescTransformer) -> (r: AnyResult<String>)
-    ensures r is Ok ==> is_field_descr(*transformer, r->Ok_0@, *field)
-{ unimplemented!() }
 
 // ASSUMED std contracts: `v.iter().peekable()` as a sequence with a position; `next` walks front to back and hands out references to the
 // elements; `peek` is Some iff an element is left and does not move; `slice.iter().all(f)` is true iff f holds on every element.
@@ -61,3 +51,38 @@ pub fn slice_iter_all<T, F: Fn(&T) -> bool>(v: &[T], f: F) -> (r: bool)
         r ==> forall|i: int| 0 <= i < v@.len() ==> call_ensures(f, (#[trigger] &v@[i],), true),
         !r ==> exists|i: int| 0 <= i < v@.len() && call_ensures(f, (#[trigger] &v@[i],), false),
 { unimplemented!() }
+
+// format!: `format!("L0{}L1", a)` / `format!("L0{}L1{}L2", a, b)` with plain `{}` holes are rewritten (rule R16) to fmt1 / fmt2, whose ASSUMED
+// contract is std's: the literal pieces and the Display text of the arguments, concatenated; Display of a String / &String / &str is its contents.
+pub trait FmtArg { spec fn text(&self) -> Seq<char>; }
+impl FmtArg for String { open spec fn text(&self) -> Seq<char> { self@ } }
+impl<'a> FmtArg for &'a String { open spec fn text(&self) -> Seq<char> { (**self)@ } }
+impl<'a> FmtArg for &'a str { open spec fn text(&self) -> Seq<char> { (*self)@ } }
+#[verifier::external_body]
+pub fn fmt1<A: FmtArg>(l0: &str, a: &A, l1: &str) -> (r: String) ensures r@ == l0@ + a.text() + l1@ { unimplemented!() }
+#[verifier::external_body]
+pub fn fmt2<A: FmtArg, B: FmtArg>(l0: &str, a: &A, l1: &str, b: &B, l2: &str) -> (r: String) ensures r@ == l0@ + a.text() + l1@ + b.text() + l2@ { unimplemented!() }
+/// OPAQUE (R8''): `field.type_name.as_ref().map(|e| e.contains("Box<")).unwrap_or_default()` -- whether the field's type name mentions Box
+pub uninterp spec fn boxed_name(f: Field) -> bool;
+#[verifier::external_body]
+pub fn opaque_is_boxed(field: &Field) -> (r: bool) ensures r == boxed_name(*field) { unimplemented!() }
+
+// ASSUMED std contracts for two calls Verus has no specification for (and whose std signatures assume_specification cannot match):
+// `String == &str` compares contents (rule R14'); `ToString::to_string` on a String is a copy (rule R17).
+#[verifier::external_body]
+pub fn string_eq_lit(a: &String, b: &str) -> (r: bool) ensures r == (a@ == b@) { unimplemented!() }
+#[verifier::external_body]
+pub fn string_to_string(a: &String) -> (r: String) ensures r@ == a@ { unimplemented!() }
+
+// Display of a u32 (array length): its decimal digits, named by the uninterpreted dec_u32.  primitive_type_description(p).into(): the name
+// table is proved by the Kani harness primnames_table (U-PRIMNAMES); here it is an opaque call named by the uninterpreted prim_text.
+pub uninterp spec fn dec_u32(n: u32) -> Seq<char>;
+impl FmtArg for u32 { open spec fn text(&self) -> Seq<char> { dec_u32(*self) } }
+pub uninterp spec fn prim_text(p: TypeDefPrimitive) -> Seq<char>;
+pub struct PrimName { pub p: Ghost<TypeDefPrimitive> }
+impl PrimName {
+    #[verifier::external_body]
+    pub fn into(self) -> (r: String) ensures r@ == prim_text(self.p@) { unimplemented!() }
+}
+#[verifier::external_body]
+pub fn primitive_type_description(primitive: &TypeDefPrimitive) -> (r: PrimName) ensures r.p@ == *primitive { unimplemented!() }
